@@ -151,6 +151,11 @@ class SetupActor:
             self.slm_op = op
         else:
             self.slm_op = None
+        if self.slm_op is not None and profile.get("slm_first_p") and rng.random() < profile["slm_first_p"]:
+            # the mask is configured before anything else (the sequence has no mode
+            # yet: its DMM is reserved but not declared)
+            self.queue.insert(0, self.slm_op)
+            self.slm_op = None
         if profile.get("declare_var_p") and rng.random() < profile["declare_var_p"]:
             # a declared but unused variable: the sequence stays a regular one
             self.queue.insert(rng.randint(0, len(self.queue)), {"op": "declare_variable", "name": "uv"})
